@@ -8,6 +8,7 @@ over the whole job, and every rendering is scanned for the plaintext.
 """
 import base64
 import hashlib
+import os
 import itertools
 import random
 
@@ -27,7 +28,7 @@ SECRETS = ["", "a", "b", "A", "a ", "aa", "é", "é", "a\x00", {"$": "bigstr", 
 # presented to challenge() only: text with a lone surrogate has no UTF-8 form, so it can be nobody's secret
 UNENCODABLE = ["hunter2\udcff", "\udcff", "a\ud800"]
 FORMATS = ["json", "yaml", "xml", "bson", "pickle"]
-ROUTES = ["attr", "ctor", "default", "default-callable", "digest-default", "load_tree", "document", "document-yaml", "document-xml", "list-assign", "list-append",
+ROUTES = ["attr", "ctor", "default", "default-callable", "digest-default", "digest-exact-salt", "digest-long-salt", "load_tree", "document", "document-yaml", "document-xml", "list-assign", "list-append",
           "dict-default-item", "dict-factory-default-update", "list-default-append", "list-factory-default-iadd", "include-overrides-stored",
           "list-assign-dup", "tuple-assign-dup", "list-default-dup", "dict-assign-dup", "dict-item", "dict-setdefault", "dict-update", "dict-ior", "dict-assign", "list-insert", "list-setitem", "list-setslice", "list-extend", "list-iadd",
           "list-from-str-proxy", "list-extend-str-proxy", "list-iadd-any-proxy", "sub-document-xml"]
@@ -56,7 +57,10 @@ def enc(p):
 
 def _world(alg, default=None, callable_default=False):
     import cincoconfig as cc
-    schema = cc.Schema()
+    # for half of the algorithms the schema sits under an environment prefix and every variable a field is bound to
+    # exists but is empty: an empty variable supplies nothing and shadows nothing
+    under_env = ALGS.index(alg) % 2 == 0
+    schema = cc.Schema(env="C09E") if under_env else cc.Schema()
     kw = {}
     if default is not None:
         kw["default"] = (lambda d=default: d) if callable_default else default
@@ -70,6 +74,10 @@ def _world(alg, default=None, callable_default=False):
     schema.l0 = cc.ListField(cc.ChallengeField(alg), default=[])
     schema.l1 = cc.ListField(cc.ChallengeField(alg), default=list)
     schema.include = cc.IncludeField()
+    if under_env:
+        from mc import cfgworld as W
+        for name in W.env_names(schema):
+            os.environ[name] = ""
     return schema
 
 
@@ -295,6 +303,17 @@ def _pairs(job, ctx):
                 dv0 = cc.DigestValue.create(p, getattr(hashlib, alg))
                 schema = _world(alg, default=dv0)
                 cfg, get = schema(), (lambda c: c.pw)
+            elif route in ("digest-exact-salt", "digest-long-salt"):
+                # a digest value made with a caller-supplied salt (of exactly the digest's length / longer: the surplus is dropped *before* hashing)
+                hcls = getattr(hashlib, alg)
+                n = hcls().digest_size
+                given = bytes((i * 7 + 3) % 256 for i in range(n if route == "digest-exact-salt" else n + 37))
+                dv0 = cc.DigestValue.create(p, hcls, salt=given)
+                schema = _world(alg)
+                cfg, get = schema(), (lambda c: c.pw)
+                cfg.pw = dv0
+                if get(cfg).salt != given[:n]:
+                    bad("given-salt-not-kept", "the value holds salt %s, the caller gave %s" % (get(cfg).salt.hex()[:16], given[:n].hex()[:16]))
             else:
                 schema = _world(alg)
                 random.seed(20240917)          # the library's salts must not come from the shared pseudo-random generator
@@ -307,14 +326,14 @@ def _pairs(job, ctx):
         ctx.case((alg, route, pi), "place:ok", True)
         ctx.transitions += 1
         ctx.states += 1
-        if not check_digest(ctx, bad, alg, dv, p, secrets, salts, "after " + route):
+        if not check_digest(ctx, bad, alg, dv, p, secrets, None if route.endswith("-salt") else salts, "after " + route):
             continue
         if route.endswith("-dup"):
             twin = cfg.d["m"] if route.startswith("dict") else cfg.l[2]
             if not check_digest(ctx, bad, alg, twin, p, secrets[:3], salts, "the same secret at another position, after " + route):
                 continue
         # a second assignment of the same secret gets another salt
-        if route not in ("digest-default",):
+        if route not in ("digest-default", "digest-exact-salt", "digest-long-salt"):
             try:
                 if route in ("default", "default-callable"):
                     cfg2, get2 = schema(), get
